@@ -58,7 +58,12 @@ Mutants(s) ==
     \cup {Del(s, i) : i \in 1..Len(s)}
     \cup {Ins(s, i, a) : i \in 1..Len(s) + 1, a \in Subst \cup {65}}
 
+\* prefix family: every prefix of a seed's header+body, closed with its own correct checksum and framed - truncated
+\* headers of every layout (2013 / 2019, fragmented or not) that pass the checksum test
+PrefixFrames == LET hb == HeaderBytes(SeedFields[hv], Len(SeedFields[hv].body)) \o SeedFields[hv].body
+                IN {Framed(Append(Take(hb, n), XorAll(Take(hb, n)))) : n \in 0..Len(hb)}
 Init == \/ kind = "short" /\ f = <<>> /\ hv = 0
+        \/ kind = "prefix" /\ hv \in 1..Len(SeedFields) /\ f = <<>>
         \/ kind = "seed" /\ hv \in 1..Len(Seeds) /\ f = Seeds[hv]
         \/ kind = "wire" /\ hv \in 1..Len(WireHdr) /\ f = <<>>
 Next == \/ /\ kind = "short" /\ Len(f) < MaxShort /\ NoInteriorFlag(f \o <<0>>)
@@ -90,7 +95,7 @@ WireForced ==
     IN IF z \in {125, 126} THEN {}
        ELSE { <<FLAG>> \o Escape(hb) \o f \o <<z>> \o t \o <<FLAG>> : t \in {<<125>>, <<125, 1>>, <<125, 2>>} }
 
-Frames == IF kind = "wire" THEN WireFrames \cup WireForced ELSE {f}
+Frames == IF kind = "wire" THEN WireFrames \cup WireForced ELSE IF kind = "prefix" THEN PrefixFrames ELSE {f}
 Domain == {g \in Frames : NoInteriorFlag(g)}
 
 View(g) == LET d == Decode(g) IN
